@@ -42,25 +42,32 @@ def accept(prop, tier, group=None):
     print(f'{prop} {tier}: {n_new} new, {n_upd} updated, total {len(d["findings"])}')
 
 def prune(prop):
-    """drop listed classes of prop that the latest run (evidence/<prop>.json) did not hit, tighten counts"""
+    """after a full run of prop (evidence/<prop>.json): listed classes the run did not hit lose their count for
+    the run's tier and are dropped when no tier is left; counts of the classes it hit are tightened.
+    (Never after a VERIF_ADHOC single-harness run: it would drop what the other harnesses own.)"""
     d = load()
     ev = json.load(open(os.path.join(V, 'evidence', prop + '.json')))
     tier = ev['tier']
     hits = ev['coverage']['known_finding_hits']
-    keep = []; dropped = 0; tightened = 0
+    keep = []; dropped = 0; tightened = 0; untier = 0
     for k in d['findings']:
         if k['property'] != prop:
             keep.append(k); continue
+        mc = k.setdefault('max_count', {})
         if k['class'] in hits:
-            mc = k.setdefault('max_count', {})
             if mc.get(tier) != hits[k['class']]:
                 mc[tier] = hits[k['class']]; tightened += 1
             keep.append(k)
         else:
-            dropped += 1
+            if tier in mc:
+                del mc[tier]; untier += 1
+            if mc:
+                keep.append(k)
+            else:
+                dropped += 1
     d['findings'] = keep
     save(d)
-    print(f'{prop}: dropped {dropped} stale, tightened {tightened}, kept {sum(1 for k in keep if k["property"]==prop)}')
+    print(f'{prop} ({tier}): dropped {dropped} stale, {untier} lost their {tier} count, tightened {tightened}, kept {sum(1 for k in keep if k["property"]==prop)}')
 
 if __name__ == '__main__':
     if sys.argv[1] == 'accept':
